@@ -17,7 +17,7 @@ from pathlib import Path
 import e2e
 import implrun
 import pkggen
-from common import REPO
+from common import REPO, pool_results
 
 HERE = Path(__file__).resolve().parent
 PY = sys.executable
@@ -162,7 +162,7 @@ def run(ctx) -> None:
     implrun.WORK.mkdir(exist_ok=True)
     t0 = time.time()
     with mp.get_context("fork").Pool(min(16, os.cpu_count() or 4)) as pool:
-        for r in pool.imap_unordered(one_case, tasks, chunksize=1):
+        for r in pool_results(pool, one_case, tasks, ctx.deadline):
             if time.time() > ctx.deadline:
                 pool.terminate()
                 break
